@@ -4,6 +4,7 @@ from smir.values import *   # noqa
 from smir.interp import State
 from smir.env import Store, Entry, Querier, lp
 from smir.symval import Mk, fresh_value
+from smir.summaries import eqv, z3_and
 
 CAP = 10 ** 18
 E = E18
@@ -34,6 +35,9 @@ class FnQuerier(Querier):
 
     def smart(self, I, st, addr, msg, target_ty, crate):
         yield from self.W.q_smart(st, addr, msg, target_ty, crate)
+
+    def all_validators(self, I, st):
+        yield from self.W.q_all_validators(st)
 
 
 class World:
@@ -117,6 +121,9 @@ class World:
 
     def q_smart(self, st, addr, msg, target_ty, crate):
         raise Gap('world %s: smart query %r not modelled' % (self.contract, msg))
+
+    def q_all_validators(self, st):
+        raise Gap('world %s: the chain\'s validator set is not modelled' % self.contract)
 
     # ------------------------------------------------------------------ running
     def env(self):
@@ -223,3 +230,103 @@ def raw_scenario(W, entry, msg, sender, funds=(), querier=None, steps=None):
         return RT2.items, RT2.T.exprs
     W.ctx.set_scenario(T, scn, dynamic if W.st.stores[W.crate].open_default else None)
     return scn
+
+
+# ---------------------------------------------------------------------- the `migrate` entry point as a step of every history
+MIGRATE_CLAIM = ('a contract migration (the `migrate` entry point) is a step of the history like any other: on the current tree '
+                 'it changes no stored item and sends nothing, so every inductive invariant carries over unchanged')
+
+
+def migrate_frame(ctx, W, crate, msg_ty, msg_crate=None, querier=None, key='migrate:frame'):
+    """run the real `migrate` entry point from the world's symbolic state; claim: every write leaves the item as it was and
+    the response carries no message.  Returns the number of Ok paths."""
+    from smir.symval import fresh_value
+    from smir.env import Entry
+    I = W.I
+    fn = I.crates[crate].get('contract::migrate') or I.crates[crate].get('migrate')
+    if fn is None:
+        raise Gap('no contract::migrate in ' + crate)
+    msg = fresh_value(I, W.st, msg_ty, msg_crate or crate, 'mig')
+    sender = StrV(z3.Int('mig_sender'))
+    W.mv['mig_sender'] = sender.id
+    raw_scenario(W, 'migrate', msg, sender, querier=querier)
+    n = 0
+    for st, res in I.call_fn(W.st, fn, [W.mk.deps(True), W.env(), msg]):
+        W.ctx.ob.paths += 1
+        if not is_ok(res):
+            continue
+        n += 1
+        resp = res.fields[0]
+        if len(resp.fields[0].items) > 0:
+            ctx.infeasible(st, MIGRATE_CLAIM + ' (a message is sent)', key, W.mv)
+        for ev in st.log:
+            if ev[0] != 'write':
+                continue
+            old, new = ev[4], ev[5]
+            if not isinstance(old, Entry) or not isinstance(new, Entry):
+                ctx.infeasible(st, MIGRATE_CLAIM + ' (a new key %s is written)' % (ev[2],), key, W.mv)
+                continue
+            if new.val is None or old.val is None:
+                same = (new.val is None and old.val is None)
+            else:
+                same = I.summ.struct_eq(st, old.val, new.val)
+            pres = eqv(old.present, new.present)
+            ctx.require(st, z3_and(same, pres), MIGRATE_CLAIM + ' (item %s)' % (ev[2],), key, W.mv)
+    ctx.need_witness('migrate Ok paths', n > 0)
+    if n:
+        ctx.witness_found('migrate entry point explored (%d Ok paths)' % n)
+    return n
+
+
+def migrate_oracle(scn, out):
+    """real run: the storage after `migrate` equals the storage before, and no message is sent."""
+    import base64, json as js
+    res = out.get('result', {})
+    if 'ok' not in res:
+        return []
+    pre = {k_: v_ for k_, v_ in scn['storage']}
+    post = {k_: v_ for k_, v_ in out.get('storage', [])}
+    def same(a, b):
+        if a == b:
+            return True
+        if a is None or b is None:
+            return False
+        try:      # the same JSON value written with another spelling (key order, spacing) is the same item
+            return js.loads(base64.b64decode(a)) == js.loads(base64.b64decode(b))
+        except Exception:   # noqa
+            return False
+    ch = sorted(base64.b64decode(k_) for k_ in set(pre) | set(post) if not same(pre.get(k_), post.get(k_)))
+    bad = []
+    if ch:
+        bad.append('migrate changed storage items %r' % ch[:6])
+    if res['ok'].get('messages'):
+        bad.append('migrate sends messages %s' % str(res['ok']['messages'])[:200])
+    return bad
+
+
+class ClaimFilter:
+    """view of a check context that keeps only the claims a property is about when it borrows another property's obligation
+    (the world, the paths and the replay stay the borrowed ones; the claims left out are decided by the check that owns them)."""
+
+    def __init__(self, ctx, keep):
+        object.__setattr__(self, '_c', ctx)
+        object.__setattr__(self, '_keep', keep)
+
+    def __getattr__(self, n):
+        return getattr(self._c, n)
+
+    def __setattr__(self, n, v):
+        setattr(self._c, n, v)
+
+    def require(self, st, prop, claim, key='', model_vars=None, assume=()):
+        if self._keep(key):
+            self._c.require(st, prop, claim, key, model_vars, assume)
+
+    def require_all(self, st, claims, model_vars=None, assume=()):
+        cl = [c for c in claims if self._keep(c[2])]
+        if cl:
+            self._c.require_all(st, cl, model_vars, assume)
+
+    def infeasible(self, st, claim, key='', model_vars=None, assume=()):
+        if self._keep(key):
+            self._c.infeasible(st, claim, key, model_vars, assume)
